@@ -16,6 +16,7 @@ import (
 	"fmt"
 	"math/big"
 	"strconv"
+	"strings"
 	"testing"
 	"time"
 
@@ -28,6 +29,11 @@ import (
 type plan struct {
 	P rig.Plan `json:"p"`
 }
+
+// sigReplayEOF: a send replayed on a retry attempt fails with io.EOF because
+// that attempt already ended, and the io.EOF (or "max retries exhausted: ...
+// EOF") is returned to the application instead of the attempt's status.
+const sigReplayEOF = "c18.replay_send_eof_masks_status"
 
 var retryable = []uint32{14, 8, 10, 1, 2, 13}
 var otherCodes = []uint32{3, 5, 7, 9, 12, 16}
@@ -93,10 +99,23 @@ func gen(rt *rapid.T) plan {
 			r.CloseSend = rapid.IntRange(0, 3).Draw(rt, "close") > 0
 			r.Settle = rapid.IntRange(0, 2).Draw(rt, "settle") > 0
 		}
+		// Flow-control variant: three ~68 KB messages exceed the stream
+		// window (64 KB) plus the per-stream write quota, so that a send -- and
+		// in particular a *replayed* send on a retry attempt -- is still blocked
+		// in the transport when the scripted failure of that attempt arrives.
+		big := r.Shape != rig.Unary && rapid.IntRange(0, 9).Draw(rt, "big") == 9
+		if big {
+			r.Msgs = nil
+			for j := 0; j < 3; j++ { // 3 x <=70 KB stays below the default 256 KB replay buffer
+				r.Msgs = append(r.Msgs, rapid.IntRange(66000, 70000).Draw(rt, "big_msg"))
+			}
+			r.CloseSend = true
+			r.Settle = false
+		}
 		for _, m := range r.Msgs {
 			total += 5 + m
 		}
-		if rapid.IntRange(0, 9).Draw(rt, "has_buflimit") >= 8 {
+		if !big && rapid.IntRange(0, 9).Draw(rt, "has_buflimit") >= 8 {
 			if len(r.Msgs) > 0 && rapid.IntRange(0, 3).Draw(rt, "buflimit_boundary") < 3 {
 				// exactly at / one off the cumulative size of the first k messages
 				k := rapid.IntRange(1, len(r.Msgs)).Draw(rt, "buflimit_k")
@@ -148,6 +167,18 @@ func gen(rt *rapid.T) plan {
 			}
 			budget += float64(s.DelayNs) + 1.2*500e6 + 200e6
 			r.Script = append(r.Script, s)
+		}
+		if big && len(r.Script) >= 2 {
+			// attempt 0 drains and fails (noticed in Recv); attempt 1 fails
+			// after a delay without reading, while the replay is blocked
+			r.Script[0].ReadN, r.Script[0].Kind = -1, rig.KStatus
+			r.Script[1].ReadN, r.Script[1].Kind = 0, rig.KStatus
+			if r.Script[1].DelayNs == 0 {
+				r.Script[1].DelayNs = 1000
+			}
+			if r.Script[1].Code == 0 {
+				r.Script[1].Code = 3
+			}
 		}
 		r.TimeoutNs = int64(2*budget) + int64(5*time.Second)
 		p.RPCs = append(p.RPCs, r)
@@ -493,6 +524,14 @@ func run(t *testing.T, pl plan) vk.Result {
 			}
 		}
 		_ = wantCodeAlt
+		if la := r.Attempts[len(r.Attempts)-1]; r.Code != wantCode && len(r.Attempts) >= 2 && la.Script.Kind == rig.KStatus && la.Script.Code != 0 &&
+			len(la.Msgs) < len(rp.Msgs) && (r.Code == codes.OK || r.Code == codes.Unknown && strings.Contains(r.ErrMsg, "EOF")) {
+			// Known shape: the retry attempt failed while a replayed send was
+			// in progress; the send's io.EOF replaces the attempt's status.
+			v := bad("retry attempt %d ended with status %v while the replay was still sending, but the application saw %v (%q): the io.EOF of the replayed send replaced the RPC status", len(r.Attempts)-1, wantCode, r.Code, r.ErrMsg)
+			v.Sig = sigReplayEOF
+			return v.With("replay_send_eof_masks_status")
+		}
 		if r.Code != wantCode {
 			return bad("application saw %v (%q), reference model says %v", r.Code, r.ErrMsg, wantCode)
 		}
